@@ -2,6 +2,8 @@ package mon
 
 import (
 	"fmt"
+	"io"
+	"log"
 	"reflect"
 	"strings"
 	"sync"
@@ -15,11 +17,16 @@ import (
 var c09Gen = TreeGen{MaxDepth: 2, MaxWidth: 4, MinWidth: 1, NilLeaves: 8, Conds: 20, CondStackExpr: 40, Aliases: 15,
 	IdxOpts: true, Present: true, StackProb: 40, Mutex: 25}
 
-func inertPush(...any) error         { return nil }
-func inertValid(...any) error        { return nil }
-func rejectValid(...any) error       { return errPolicyRejects }
-func inertLess(i, j int) bool        { return i < j }
-func inertEq(any, any) error         { return nil }
+func inertPush(...any) error   { return nil }
+func inertValid(...any) error  { return nil }
+func rejectValid(...any) error { return errPolicyRejects }
+func inertLess(i, j int) bool  { return i < j }
+func inertEq(any, any) error   { return nil }
+
+// a user closure that panics (its caller recovers): whatever the library parks while the closure runs must be put back
+const userPanicText = "the user's own closure panics (harness)"
+
+func panicEq(any, any) error         { panic(userPanicText) }
 func inertUnm(...any) ([]any, error) { return []any{"X"}, nil }
 func inertMar(...any) error          { return nil }
 func inertEval(...any) (any, error)  { return 1, nil }
@@ -46,7 +53,11 @@ func c09Settings(s stackage.Stack, r *core.Rng) {
 		s.SetLessFunc(inertLess)
 	}
 	if r.Chance(1, 5) {
-		s.SetEqualityPolicy(inertEq)
+		if r.Chance(1, 3) {
+			s.SetEqualityPolicy(panicEq)
+		} else {
+			s.SetEqualityPolicy(inertEq)
+		}
 	}
 	if r.Chance(1, 5) {
 		s.SetUnmarshaler(inertUnm)
@@ -82,7 +93,11 @@ func c09CondSettings(cd stackage.Condition, r *core.Rng) {
 		cd.SetEvaluator(inertEval)
 	}
 	if r.Chance(1, 5) {
-		cd.SetEqualityPolicy(inertEq)
+		if r.Chance(1, 3) {
+			cd.SetEqualityPolicy(panicEq)
+		} else {
+			cd.SetEqualityPolicy(inertEq)
+		}
 	}
 	if r.Chance(1, 5) {
 		cd.SetUnmarshaler(inertUnm)
@@ -319,6 +334,10 @@ func c09Foreign(c *core.Ctx, r *core.Rng) {
 	desc := map[string]any{"role": role, "read_only": roKind + " " + ro.desc, "form": formName, "call": cs.Method, "receiver": w.desc}
 	s0 := ro.take()
 	_, pan, msg, site := Invoke(w.recv, cs)
+	if pan && strings.Contains(msg, userPanicText) {
+		c.Count("calls.user-closure-panicked")
+		pan = false
+	}
 	if pan {
 		c.Violatef("panic:foreign:"+cs.Method, desc, "%s with a read-only %s as %s panicked (%s): %s", cs.Method, roKind, role, site, msg)
 		return
@@ -408,6 +427,8 @@ func c09One(c *core.Ctx, seed uint64, isCond bool, seq []CallSpec) {
 	desc := map[string]any{"receiver": kindTag, "instance": t.desc, "calls": names}
 	t.setRO(true)
 	s0 := t.take()
+	held := t.cd // a second handle of the same Condition (meaningful only for isCond)
+	heldSnap := func() *Snap { sn, _ := Take(held); return sn }
 	w0 := twin.take()
 	opts := DiffOpts{}
 	replaced := false
@@ -417,6 +438,12 @@ func c09One(c *core.Ctx, seed uint64, isCond bool, seq []CallSpec) {
 		opts.IgnoreOpt |= o.IgnoreOpt
 		opts.SkipRoot = append(opts.SkipRoot, o.SkipRoot...)
 		res, pan, msg, site := Invoke(t.recv, cs)
+		if pan && strings.Contains(msg, userPanicText) {
+			// the user's closure panicked and the caller (this harness) recovered: not the library's fault, but the
+			// instance must be what it was
+			c.Count("calls.user-closure-panicked")
+			pan = false
+		}
 		if pan {
 			c.Violatef("panic:"+kindTag+"."+cs.Method, desc, "%s on a read-only %s panicked (%s): %s", cs.Desc, kindTag, site, msg)
 			return
@@ -424,6 +451,22 @@ func c09One(c *core.Ctx, seed uint64, isCond bool, seq []CallSpec) {
 		c.Count("calls." + kindTag)
 		if rep {
 			replaced = true
+			if isCond {
+				// Init detached the handle: whatever is done to the fresh instance must not reach the read-only one, which
+				// the copy of the handle taken before still designates
+				fresh := t.cd
+				fresh.SetLogLevel(stackage.AllLogLevels)
+				fresh.SetLogger(log.New(io.Discard, "fresh", 0))
+				fresh.SetKeyword("fresh").SetOperator(stackage.Ne).SetExpression("fresh-value")
+				fresh.SetEncap("'").SetID("fresh-id").SetCategory("fresh-cat").SetParen(true).SetNoNesting(true)
+				fresh.SetAuxiliary(stackage.Auxiliary{"fresh": true})
+				fresh.SetErr(errPolicyRejects)
+				if d := Diff(s0, heldSnap(), opts); d != "" {
+					c.Violatef("changed-through-reinitialised-handle:"+kindTag, desc, "after Init() on one handle and setters on the fresh instance, the read-only instance (second handle) changed: %s", d)
+					return
+				}
+				c.Count("init-then-setters-on-fresh-instance")
+			}
 			break
 		}
 		if cs.Method == "Free" {
